@@ -485,16 +485,17 @@ func (ufs *Ufs) Create(req *SrvReq) {
 		return
 
 	default:
-		mode := tc.Perm & 0777
+		/* os.FileMode has bits of its own for setuid and setgid */
+		mode := os.FileMode(tc.Perm & 0777)
 		if req.Conn.Dotu {
 			if tc.Perm&DMSETUID > 0 {
-				mode |= syscall.S_ISUID
+				mode |= os.ModeSetuid
 			}
 			if tc.Perm&DMSETGID > 0 {
-				mode |= syscall.S_ISGID
+				mode |= os.ModeSetgid
 			}
 		}
-		file, e = os.OpenFile(path, omode2uflags(tc.Mode)|os.O_CREATE, os.FileMode(mode))
+		file, e = os.OpenFile(path, omode2uflags(tc.Mode)|os.O_CREATE, mode)
 	}
 
 	/* a symbolic link is not opened: that would follow it, and fail for a
@@ -720,16 +721,17 @@ func (u *Ufs) Wstat(req *SrvReq) {
 
 	dir := &req.Tc.Dir
 	if dir.Mode != 0xFFFFFFFF {
-		mode := dir.Mode & 0777
+		/* os.FileMode has bits of its own for setuid and setgid */
+		mode := os.FileMode(dir.Mode & 0777)
 		if req.Conn.Dotu {
 			if dir.Mode&DMSETUID > 0 {
-				mode |= syscall.S_ISUID
+				mode |= os.ModeSetuid
 			}
 			if dir.Mode&DMSETGID > 0 {
-				mode |= syscall.S_ISGID
+				mode |= os.ModeSetgid
 			}
 		}
-		e := os.Chmod(fid.path, os.FileMode(mode))
+		e := os.Chmod(fid.path, mode)
 		if e != nil {
 			req.RespondError(toError(e))
 			return
